@@ -11,6 +11,16 @@ template (`if constexpr` = the branch the instantiation kept), "Functor" = a spe
 constructor and `operator()` (Lean parameters = constructor parameters then call parameters; every field is bound, in
 initialisation order, like a local: mem-initialiser or the in-class default initialiser; `this->field` = that binding),
 "Lambda <var>" = `operator()` of the closure bound to the local `<var>` of a function template specialization.
+Aggregates (AGG: year_month, year_month_day, year_month_day_last, year_month_weekday, year_month_weekday_last): parameters
+and `*this` are passed component-wise, temporaries / locals bound to a call result / results are Lean tuples; their
+getters are the projections (trusted: the getters only return the field).  In a member of an aggregate class
+(`operator+=`: `*this = *this + m; return *this;`) `*this` is the tuple of the `self_<field>` parameters until it is
+assigned, afterwards the tuple bound to `self_1`; `return *this` is that tuple.  WRAPPERS (month_day_last = a one-field
+wrapper of month) are translated as the wrapped value (construction from it and the getter named after it = identity, so
+`year_month_day_last::month()` reads component 1).  OPAQUE classes (weekday_indexed, weekday_last) may only be passed
+through (copied into an aggregate, returned): one Int token stands for the whole object, nothing ever inspects it; any
+other use of such a value raises `Unsupported`.  A call whose argument type is spelt through an alias template
+(`lhs + -rhs`, `-rhs : common_type_t<duration<…>>`) is resolved through the callee's own declared parameter types.
 
 For each function `f` it emits
   * one `def f_<local>` per C++ local (so proof obligations stay small and local),
@@ -93,7 +103,20 @@ CLASSES = {
 AGG = {
     "year_month": [("year", "year"), ("month", "month")],
     "year_month_day": [("year", "year"), ("month", "month"), ("day", "day")],
+    "year_month_day_last": [("year", "year"), ("month_day_last", "month_day_last")],
+    "year_month_weekday": [("year", "year"), ("month", "month"), ("weekday_indexed", "weekday_indexed")],
+    "year_month_weekday_last": [("year", "year"), ("month", "month"), ("weekday_last", "weekday_last")],
 }
+# further getters of an aggregate that read a component through a WRAPPERS class: getter -> component index
+AGG_EXTRA = {"year_month_day_last": {"month": 1}}
+# data members of an aggregate class read directly inside its own members (`_y.ok()`): field name -> component index
+AGG_FIELDS = {"year_month_day_last": {"_y": 0, "_mdl": 1}}
+# one-field wrappers of another one-field class: construction from the wrapped class and the getter named after it are the
+# identity (month_day_last{m}.month() == m), so the wrapper is translated as the wrapped value itself
+WRAPPERS = {"month_day_last": "month"}
+# classes that the translated functions only pass through (copied, stored into an aggregate, returned; never inspected): an
+# opaque Int token chosen by the driver stands for the whole object
+OPAQUE = {"weekday_indexed", "weekday_last"}
 GETTERS = {"count", "c_encoding", "operator unsigned int", "operator int", "operator unsigned"}
 
 
@@ -115,6 +138,7 @@ class Fn:
         self.name, self.decl, self.reg, self.self_class = name, decl, reg, self_class
         self.defs, self.ub, self.env, self.counter, self.order = [], [], {}, {}, []
         self.tables = {}
+        self.vtypes = {}      # Lean type of a tuple-valued local (everything else is passed as Int)
         self.fields = {}      # Functor jobs: field name -> True once bound (MemberExpr on `this` = the binding)
 
     def guarded(self, cond, fcond, thunk, negate=False):
@@ -184,6 +208,9 @@ class Fn:
                     raise Unsupported("field %s read before it is initialised" % n.get("name"))
                 e, fv, b = self.env[n["name"]]
                 return (e, set(fv), b)
+            if inner[0]["kind"] == "CXXThisExpr" and n.get("name") in AGG_FIELDS.get(self.self_class, {}) and "this#0" in self.env:
+                e, fv, b = self.env["this#%d" % AGG_FIELDS[self.self_class][n["name"]]]
+                return (e, set(fv), b)
             e, fv, b = self.ex(inner[0])
             return (e, fv, b)
         if k in ("ImplicitCastExpr", "CXXStaticCastExpr", "CStyleCastExpr", "CXXFunctionalCastExpr"):
@@ -204,6 +231,9 @@ class Fn:
             if op == "*" and inner[0]["kind"] == "CXXThisExpr" and "self" in self.env:
                 e, fv, b = self.env["self"]
                 return (e, set(fv), b)
+            if op == "*" and inner[0]["kind"] == "CXXThisExpr" and "this#0" in self.env:      # aggregate class: the tuple
+                parts = self.agg_components(n)
+                return ("(" + ", ".join(p[0] for p in parts) + ")", set().union(*[p[1] for p in parts]), False)
             e, fv, b = self.ex(inner[0])
             if op == "-":
                 return self.arith(n, "(- %s)" % e, fv)
@@ -258,7 +288,11 @@ class Fn:
                 for idx, (g, _) in enumerate(AGG[ocls]):
                     if g == mname:
                         return comps[idx]
+                if mname in AGG_EXTRA.get(ocls, {}):
+                    return comps[AGG_EXTRA[ocls][mname]]
                 raise Unsupported("aggregate member " + mname)
+            if ocls in WRAPPERS and mname == WRAPPERS[ocls]:
+                return self.ex(obj)
             e, fv, b = self.ex(obj)
             if mname in GETTERS or mname.startswith("operator "):
                 return (e, fv, b)
@@ -288,6 +322,12 @@ class Fn:
                 return self.binop(op, None, args[0], args[1], force_cmp=True)
             ln = self.reg.get(sig)
             if ln is None:
+                # an argument whose type is written through an alias template (`-rhs` : common_type_t<duration<..>>): take the
+                # parameter types from the callee's own declared type `auto (const year &, const years &) noexcept -> year`
+                m = re.match(r"[^(]*\(([^()]*)\)", callee.get("type", {}).get("qualType", ""))
+                sig2 = opname + "(" + ",".join(short(x) for x in m.group(1).split(",")) + ")" if m else sig
+                ln = self.reg.get(sig2)
+            if ln is None:
                 raise Unsupported("call to untranslated " + sig)
             parts = self.call_args(args)
             fvs = set().union(*[p[1] for p in parts])
@@ -307,6 +347,10 @@ class Fn:
                 if ctor is None:
                     raise Unsupported("constructor of " + cls + " not translated")
                 return ("(%s %s)" % (ctor, e), fv, False)
+            if cls in WRAPPERS and len(inner) == 1 and short(qtype(inner[0])) in (cls, WRAPPERS[cls]):
+                return self.ex(inner[0])
+            if cls in OPAQUE and len(inner) == 1 and short(qtype(inner[0])) == cls:      # copy/move of a pass-through value
+                return self.ex(inner[0])
             if cls in AGG and len(inner) == len(AGG[cls]):
                 parts = [self.ex(x) for x in inner]
                 fv = set().union(*[p[1] for p in parts])
@@ -318,6 +362,9 @@ class Fn:
 
     def agg_components(self, obj):
         while obj["kind"] in ("ImplicitCastExpr", "ParenExpr", "MaterializeTemporaryExpr"):
+            obj = obj["inner"][0]
+        if obj["kind"] == "UnaryOperator" and obj.get("opcode") == "*" and obj["inner"][0]["kind"] == "CXXThisExpr" \
+                and "this#0" in self.env:      # `*this` of an aggregate class whose components are still the parameters
             obj = obj["inner"][0]
         if obj["kind"] in ("DeclRefExpr", "CXXThisExpr"):
             nm = "this" if obj["kind"] == "CXXThisExpr" else obj["referencedDecl"]["name"]
@@ -402,6 +449,8 @@ class Fn:
         ps = sorted(fv)
         self.defs.append((ln, ps, e, isb))
         self.env[v] = (lv, {lv}, False if isinstance(isb, tuple) else isb)
+        if isinstance(isb, tuple):      # a tuple-valued local: later per-local definitions take it as a tuple parameter
+            self.vtypes[lv] = " × ".join(["Int"] * isb[1])
         self.order.append((lv, ln, ps))
 
     def body(self, stmts):
@@ -473,6 +522,14 @@ class Fn:
                 lhs = lhs["inner"][0]
             is_this = (lhs["kind"] == "UnaryOperator" and lhs.get("opcode") == "*" and lhs["inner"][0]["kind"] == "CXXThisExpr") or \
                       (lhs["kind"] == "MemberExpr" and lhs["inner"][0]["kind"] == "CXXThisExpr")
+            if is_this and lhs["kind"] == "UnaryOperator" and self.self_class in AGG:
+                # `*this = expr;` in a member of an aggregate class: from here on `*this` is the tuple bound to `self_<n>`
+                e, fv, _ = self.ex(parts[1])
+                self.counter.setdefault("self", 1)
+                self.bind("self", e, fv, ("agg", len(AGG[self.self_class])))
+                for i in range(len(AGG[self.self_class])):
+                    self.env.pop("this#%d" % i, None)
+                return self.body(rest)
             if not is_this or "self" not in self.env:
                 raise Unsupported("assignment to something other than *this")
             e, fv, b = self.ex(parts[1])
@@ -483,6 +540,8 @@ class Fn:
         if k == "ReturnStmt":
             r0 = s["inner"][0]
             if r0["kind"] == "UnaryOperator" and r0.get("opcode") == "*" and r0["inner"][0]["kind"] == "CXXThisExpr":
+                if "self" not in self.env:      # aggregate class, `*this` never assigned: the tuple of the parameters
+                    return self.ex(r0)
                 return self.env["self"]
             return self.ex(r0)
         if k == "IfStmt" and s.get("isConstexpr") and s["inner"][0]["kind"] == "ConstantExpr" and "value" in s["inner"][0]:
@@ -577,7 +636,7 @@ class Fn:
         out = []
         for ln, ps, e, isb in self.defs:
             ty = " × ".join(["Int"] * isb[1]) if isinstance(isb, tuple) else ("Bool" if isb else "Int")
-            out.append("def %s %s : %s :=\n  %s" % (ln, " ".join("(%s : Int)" % p for p in ps), ty, e))
+            out.append("def %s %s : %s :=\n  %s" % (ln, " ".join("(%s : %s)" % (p, self.vtypes.get(p, "Int")) for p in ps), ty, e))
         lets = "".join("  let %s := %s %s\n" % (v, ln, " ".join(ps)) for v, ln, ps in self.order)
         pl = " ".join("(%s : Int)" % p for p in params)
         out.append("def %s %s :=\n%s  %s" % (self.name, pl, lets, res[0]))
@@ -586,7 +645,7 @@ class Fn:
         return "\n\n".join(out)
 
 
-BOOL_FNS = {"year::is_leap", "year::ok", "month::ok", "day::ok", "weekday::ok"}
+BOOL_FNS = {"year::is_leap", "year::ok", "month::ok", "day::ok", "weekday::ok", "month_day_last::ok"}
 
 PRELUDE = """/-
 GENERATED by /verif/gen/translate.py from %(repo)s/include/etl/_chrono — do not edit.
@@ -638,7 +697,43 @@ JOBS = [
     ("last_day_of_month", "last_day_of_month", "FunctionDecl", lambda d: True, None, ["fn:last_day_of_month"]),
     ("ymd_ok", "etl::chrono::year_month_day::ok", "CXXMethodDecl", lambda d: True, "year_month_day", []),
     ("year_month_plus", "etl::chrono::operator+", "FunctionDecl", sig_is("year_month", "months"), None, ["operator+(year_month,months)"]),
+    ("year_minus", "etl::chrono::operator-", "FunctionDecl", sig_is("year", "years"), None, ["operator-(year,years)"]),
+    ("years_plus_year", "etl::chrono::operator+", "FunctionDecl", sig_is("years", "year"), None, ["operator+(years,year)"]),
+    ("year_add_assign", "etl::chrono::year::operator+=", "CXXMethodDecl", sig_is("years"), "year", []),
+    ("year_sub_assign", "etl::chrono::year::operator-=", "CXXMethodDecl", sig_is("years"), "year", []),
+    ("year_month_diff", "etl::chrono::operator-", "FunctionDecl", sig_is("year_month", "year_month"), None,
+     ["operator-(year_month,year_month)"]),
+    ("year_diff", "etl::chrono::operator-", "FunctionDecl", sig_is("year", "year"), None, ["operator-(year,year)"]),
+    ("weekday_iso_encoding", "etl::chrono::weekday::iso_encoding", "CXXMethodDecl", lambda d: True, "weekday", []),
+    ("year_month_ok", "etl::chrono::year_month::ok", "CXXMethodDecl", lambda d: True, "year_month", []),
+    ("month_day_last_ok", "etl::chrono::month_day_last::ok", "CXXMethodDecl", lambda d: True, "month_day_last", ["month_day_last::ok"]),
+    ("ymdl_ok", "etl::chrono::year_month_day_last::ok", "CXXMethodDecl", lambda d: True, "year_month_day_last", []),
+    ("months_plus_month", "etl::chrono::operator+", "FunctionDecl", sig_is("months", "month"), None, ["operator+(months,month)"]),
+    ("month_minus", "etl::chrono::operator-", "FunctionDecl", sig_is("month", "months"), None, ["operator-(month,months)"]),
+    ("month_add_assign", "etl::chrono::month::operator+=", "CXXMethodDecl", sig_is("months"), "month", []),
+    ("month_sub_assign", "etl::chrono::month::operator-=", "CXXMethodDecl", sig_is("months"), "month", []),
 ]
+
+
+def calendar_op_jobs():
+    """+/- months / years of year_month and of the four date aggregates built on it: every operand order, += and -="""
+    jobs = []
+    for ab, cls in (("year_month", "year_month"), ("ymd", "year_month_day"), ("ymdl", "year_month_day_last"),
+                    ("ymw", "year_month_weekday"), ("ymwl", "year_month_weekday_last")):
+        for dur in ("months", "years"):
+            if not (cls == "year_month" and dur == "months"):
+                jobs.append(("%s_plus_%s" % (ab, dur), "etl::chrono::operator+", "FunctionDecl", sig_is(cls, dur), None,
+                             ["operator+(%s,%s)" % (cls, dur)]))
+            jobs.append(("%s_plus_%s" % (dur, ab), "etl::chrono::operator+", "FunctionDecl", sig_is(dur, cls), None,
+                         ["operator+(%s,%s)" % (dur, cls)]))
+            jobs.append(("%s_minus_%s" % (ab, dur), "etl::chrono::operator-", "FunctionDecl", sig_is(cls, dur), None,
+                         ["operator-(%s,%s)" % (cls, dur)]))
+            jobs.append(("%s_add_assign_%s" % (ab, dur), "etl::chrono::%s::operator+=" % cls, "CXXMethodDecl", sig_is(dur), cls, []))
+            jobs.append(("%s_sub_assign_%s" % (ab, dur), "etl::chrono::%s::operator-=" % cls, "CXXMethodDecl", sig_is(dur), cls, []))
+    return jobs
+
+
+JOBS += calendar_op_jobs()
 
 
 def translate(repo, out_path, jobs=None, tu="#include <etl/chrono.hpp>\n", namespace="Tetl.C11.Gen",
